@@ -32,13 +32,15 @@ CHUNK = 24
 
 def bounds(tier):
     return {"leaf alphabets": "vf/opcat.py leaf_specs('%s')" % tier,
-            "tree nodes": "1 over 11 leaves (all axes), 2 over 5 leaves (non-negative axes)" if tier == "quick" else "<= 2 over 11 leaves (all axes), 3 over 3 leaves",
+            "n-ary": "3- and 4-operand Add/Compose/Hstack/Vstack/Diag over 5 leaves (quick) / 3-operand over 11 leaves (thorough)", "tree nodes": "1 over 11 leaves (all axes), 2 over 5 leaves (non-negative axes)" if tier == "quick" else "<= 2 over 11 leaves (all axes), 3 over 3 leaves",
             "deviation": "full product within each class alphabet"}
 
 
 def gen_cases(tier, seed):
     cases = [dict(kind="leaf", spec=s) for s in opcat.leaf_specs(tier)]
     for t in programs.trees(programs.LEAVES, 1):
+        cases.append(dict(kind="tree", spec=t))
+    for t in programs.nary_trees(programs.SUB5 if tier == "quick" else programs.LEAVES, (3, 4) if tier == "quick" else (3,)):
         cases.append(dict(kind="tree", spec=t))
     if tier == "quick":
         for t in programs.trees(programs.SUB5, 2, all_axes=False, scalars=programs.SCALARS[:2]):
